@@ -57,7 +57,7 @@ impl rustc_driver::Callbacks for Cb {
         if tcx.dcx().has_errors().is_some() {
             return Compilation::Continue;
         }
-        let j = ty::print::with_no_trimmed_paths!(Dumper::new(tcx).dump());
+        let j = ty::print::with_no_visible_paths!(ty::print::with_no_trimmed_paths!(Dumper::new(tcx).dump()));
         let mut s = String::with_capacity(1 << 24);
         j.write(&mut s);
         let path = format!("{}/{}.json", out_dir, krate);
@@ -1337,6 +1337,16 @@ impl<'tcx> Dumper<'tcx> {
             } else {
                 v.push(("x", J::s("desugar")));
             }
+            let mut sp = t.source_info.span;
+            let mut outer_name = String::new();
+            while sp.from_expansion() {
+                let ed = sp.ctxt().outer_expn_data();
+                if let rustc_span::ExpnKind::Macro(_, name) = ed.kind {
+                    outer_name = name.to_string();
+                }
+                sp = ed.call_site;
+            }
+            v.push(("xo", J::s(outer_name)));
         }
         match &t.kind {
             TerminatorKind::Goto { target } => {
